@@ -3,7 +3,8 @@
    O : oracles  = the text layers (csv, str/int/float/complex, isidentifier, namedtuple);
    y : yres     = PyYAML's loading of the header that save wrote (data, not modelled). *)
 From Coq Require Import String List ZArith Bool.
-From PV Require Import Model_scsv Proofs_scsv Model_scsv_frame Proofs_scsv_frame.
+From Coq Require Import Ascii NArith.
+From PV Require Import Model_scsv Proofs_scsv Model_scsv_frame Proofs_scsv_frame Model_scsv_header Proofs_scsv_header.
 Import ListNotations.
 Open Scope string_scope.
 
@@ -236,3 +237,64 @@ Theorem C16_dash_delimiter_fence_refuted :
   toy_writer "-" dash_rows = ["a-b-c-d" ++ LF; fence_line; "1-2-3-4" ++ LF] /\
   transport_via_file toy_writer toy_reader toy_hdr "-" dash_rows = Ok [["a"; "b"; "c"; "d"]].
 Proof. exact dash_fence_witness. Qed.
+
+(* ---- the header writer: `_yaml_quote` and the lines of write_scsv_header (Model_scsv_header) ---- *)
+
+(* `_yaml_quote` is exactly invertible by the scanner of a YAML single-quoted scalar, for EVERY string:
+   the model string is the UTF-8 byte string, so every code point of every plane is covered, and so are
+   apostrophes, control characters, line separators and the empty string *)
+Theorem C16_yaml_quote_roundtrip : forall s, yaml_unquote (yaml_quote s) = Some s.
+Proof. exact yaml_unquote_quote. Qed.
+
+(* the quoted form is the only text that reads back as s: nothing else is accepted for it *)
+Theorem C16_yaml_quote_exact : forall t s, yaml_unquote t = Some s -> t = yaml_quote s.
+Proof. exact yaml_unquote_exact. Qed.
+
+(* the same over any alphabet with a decidable equality, whichever character is the quote ... *)
+Theorem C16_yaml_quote_any_alphabet : forall (A : Type) (eqb : A -> A -> bool) (q : A),
+  (forall a b, eqb a b = true <-> a = b) ->
+  forall s, unquote A eqb q (quote A eqb q s) = Some s.
+Proof. exact unquote_quote. Qed.
+
+(* ... in particular over lists of code points (any natural number; Unicode ends at 0x10FFFF) *)
+Theorem C16_yaml_quote_code_points : forall s, cp_unquote (cp_quote s) = Some s.
+Proof. exact cp_unquote_quote. Qed.
+
+(* and the two agree through UTF-8: quoting the bytes = encoding the quoted code points (no byte of a
+   multi-byte sequence is an apostrophe), for all code points below 2^21 *)
+Theorem C16_yaml_quote_utf8 : forall s, Forall (fun n => (n < 2097152)%N) s ->
+  quote ascii Ascii.eqb apostrophe (utf8 s) = utf8 (cp_quote s).
+Proof. exact utf8_quote_commutes. Qed.
+
+(* a header that write_scsv_header writes (any comments, any units) determines the delimiter and the
+   missing marker ... *)
+Theorem C16_header_delimiter_missing_recoverable : forall O cs s units ls,
+  header_lines O cs s units = Ok ls ->
+  exists d m, sdelim s = Some d /\ smissing s = Some m /\
+    obind (nth_error ls (length cs + 1)) (scalar_of_line "  delimiter: ") = Some d /\
+    obind (nth_error ls (length cs + 2)) (scalar_of_line "  missing: ") = Some m.
+Proof. exact header_delimiter_missing_recoverable. Qed.
+
+(* ... and every field name and every string fill value, whatever characters they contain *)
+Theorem C16_header_field_recoverable : forall O f u l,
+  field_lines O f u = Ok l ->
+  exists n, fname f = Some (YStr n) /\
+    obind (nth_error l 0) (scalar_of_line "    - name: ") = Some n /\
+    forall x, ffill f = Some (YStr x) -> obind (nth_error l (length l - 1)) (scalar_of_line "      fill: ") = Some x.
+Proof. exact header_field_recoverable. Qed.
+
+(* by computation: apostrophes are doubled, U+1F600 is four bytes none of which is touched, NEL is C2 85,
+   malformed scalars are refused, a two-field header with a comment, a unit, an empty string fill and an
+   integer fill *)
+Example C16_header_examples :
+  yaml_quote "it's" = "'it''s'" /\ yaml_quote "" = "''" /\ yaml_quote "'" = "''''" /\
+  utf8_cp 128512 = [byte 240; byte 159; byte 152; byte 128] /\ utf8_cp 133 = [byte 194; byte 133] /\
+  cp_quote [128512%N; 39%N] = [39; 128512; 39; 39; 39]%N /\
+  yaml_unquote "'a'b'" = None /\ yaml_unquote "'a" = None /\ yaml_unquote "a'" = None /\ yaml_unquote "''" = Some "" /\
+  header_lines hdrO ["c"] (mkSchema (Some ",") (Some "n'a")
+      (Some [mkField (Some (YStr "x")) None (Some (YStr "")); mkField (Some (YStr "y")) (Some "integer") (Some (YInt 0))]))
+      [Some "km"; None] =
+    Ok ["# c"; "schema:"; "  delimiter: ','"; "  missing: 'n''a'"; "  fields:";
+        "    - name: 'x'"; "      type: string"; "      unit: km"; "      fill: ''";
+        "    - name: 'y'"; "      type: integer"; "      fill: 0"].
+Proof. exact header_examples. Qed.
